@@ -66,9 +66,11 @@ Keys(seq) == [i \in 1..Len(seq) |-> OutKey(seq[i])]
 Pairs(seq) == [i \in 1..Len(seq) |-> <<seq[i][1], seq[i][2]>>]
 Shown(s, r) == [view |-> s.view, hqc |-> s.hqc, hqcv |-> r[s.hqc].view, htc |-> s.htc, lv |-> s.lv,
                 lock |-> IF cfg.rs = "fasthotstuff" THEN -1 ELSE s.lock, committed |-> s.committed,
-                signed |-> Pairs(s.signed), commits |-> s.commits, vcs |-> Pairs(s.vcs), out |-> Keys(s.out), miss |-> s.miss]
+                signed |-> Pairs(s.signed), commits |-> s.commits, vcs |-> Pairs(s.vcs), out |-> Keys(s.out), miss |-> s.miss,
+                timer |-> s.timer, dlog |-> s.dlog]
 Logged == [view |-> Line.post.view, hqc |-> Line.post.hqc, hqcv |-> Line.post.hqcv, htc |-> Line.post.htc, lv |-> Line.post.lv, lock |-> Line.post.lock,
-           committed |-> Line.post.committed, signed |-> Pairs(Line.signed), commits |-> Line.commits, vcs |-> Pairs(Line.vcs), out |-> Keys(Line.out), miss |-> FALSE]
+           committed |-> Line.post.committed, signed |-> Pairs(Line.signed), commits |-> Line.commits, vcs |-> Pairs(Line.vcs), out |-> Keys(Line.out), miss |-> FALSE,
+           timer |-> Line.post.tv, dlog |-> Line.dlog]
 ConformsStep == (l < Len(Trace) /\ Line.op = "step" /\ on /\ Line.panic = "") => Shown(rep'[Line.node], reg') = Logged
 ConformsToModel == [][ConformsStep]_vars
 \* for diagnosis: the two sides of the first step that differs
